@@ -1,0 +1,53 @@
+//go:build verif
+
+package cluster
+
+import "github.com/semafind/semadb/models"
+
+// Exported wrappers used by the verification harness in /verif (build tag
+// verif only). They add no behaviour.
+
+type VerifShardInfo struct {
+	Id         string
+	Size       int64
+	PointCount int64
+}
+
+// VerifDistributePoints calls distributePoints with the given shard fill levels.
+func VerifDistributePoints(shards []VerifShardInfo, points []models.Point, maxShardSize, maxShardPointCount int64, createShardFn func() (string, error)) (map[string][2]int, error) {
+	in := make([]shardInfo, len(shards))
+	for i, s := range shards {
+		in[i] = shardInfo{Id: s.Id, Size: s.Size, PointCount: s.PointCount}
+	}
+	return distributePoints(in, points, maxShardSize, maxShardPointCount, createShardFn)
+}
+
+// VerifGetShardsInfo exposes GetShardsInfo results.
+func (c *ClusterNode) VerifGetShardsInfo(col models.Collection) ([]VerifShardInfo, error) {
+	infos, err := c.GetShardsInfo(col)
+	if err != nil {
+		return nil, err
+	}
+	out := make([]VerifShardInfo, len(infos))
+	for i, s := range infos {
+		out[i] = VerifShardInfo{Id: s.Id, Size: s.Size, PointCount: s.PointCount}
+	}
+	return out, nil
+}
+
+// VerifShardManager exposes the node's shard manager.
+func (c *ClusterNode) VerifShardManager() *ShardManager { return c.shardManager }
+
+// VerifCurateFailedPoints exposes curateFailedPoints.
+var VerifCurateFailedPoints = curateFailedPoints
+
+// VerifLoadedShardCount returns the number of entries of the shard store.
+func (sm *ShardManager) VerifLoadedShardCount() int {
+	sm.shardLock.Lock()
+	defer sm.shardLock.Unlock()
+	return len(sm.shardStore)
+}
+
+// VerifSync runs the two start-up synchronisation phases separately.
+func (c *ClusterNode) VerifSyncUserCollections() error { return c.syncUserCollections() }
+func (c *ClusterNode) VerifSyncShards() error          { return c.syncShards() }
